@@ -12,8 +12,35 @@ def showItem : Item → String
   | .frame p => "f:" ++ toHex p
   | .code c => s!"c:{c}"
 
+/-- `t:hex,t:hex,…` → per-sender payload lists (in the order given). -/
+def parsePayloads (s : String) : Option (Nat → List Bytes) := do
+  let items ← (s.splitOn ",").mapM fun w =>
+    match w.splitOn ":" with
+    | [t, h] => do pure ((← t.toNat?), (← ofHex h))
+    | _ => none
+  pure fun t => (items.filter (·.1 == t)).map (·.2)
+
+def parseAct (w : String) : Option TdModel.C16.SAct :=
+  match w.toList with
+  | 'a' :: r => (String.ofList r).toNat?.map .acquire
+  | 'r' :: r => (String.ofList r).toNat?.map .release
+  | 'w' :: r =>
+    match (String.ofList r).splitOn ":" with
+    | [t, n] => do pure (.write (← t.toNat?) (← n.toNat?))
+    | _ => none
+  | _ => none
+
 def handle (line : String) : String :=
   match words line with
+  | ["send", k, seq, payloads, rnds, acts] =>
+    match Kind.ofTag k, seq.toInt?, parsePayloads payloads, (rnds.splitOn ",").mapM ofHex, (acts.splitOn ",").mapM parseAct with
+    | some k, some seq, some pend, some rnds, some acts =>
+      match TdModel.C16.srun cfg crc32 k (fun i => rnds.getD i []) (TdModel.C16.sinit seq pend) acts with
+      | none => "disabled"
+      | some s =>
+        if s.cur.isSome then "frame-incomplete"
+        else "ok " ++ toHex s.wire ++ " " ++ ",".intercalate (s.log.map (toString ·.1))
+    | _, _, _, _, _ => "bad-op"
   | ["enc", k, seq, rnd, p] =>
     match Kind.ofTag k, seq.toInt?, ofHex rnd, ofHex p with
     | some k, some seq, some rnd, some p =>
